@@ -277,7 +277,7 @@ func (m *TaskInfoMysqlStore) Delete(ctx context.Context, metaObj *meta.TaskInfo,
 	if taskID == "" {
 		return errors.New("task id is empty")
 	}
-	sqlStr := "DELETE FROM task_info WHERE task_id = ?"
+	sqlStr := fmt.Sprintf("DELETE FROM task_info WHERE task_info_key LIKE '%s%%' AND task_id = ?", getTaskInfoPrefix(m.rootPath))
 	var err error
 	defer func() {
 		if err != nil {
@@ -482,7 +482,7 @@ func (m *TaskCollectionPositionMysqlStore) Delete(ctx context.Context, metaObj *
 	if taskID == "" {
 		return errors.New("task id is empty")
 	}
-	sqlStr := "DELETE FROM task_position WHERE task_id = ?"
+	sqlStr := fmt.Sprintf("DELETE FROM task_position WHERE task_position_key LIKE '%s%%' AND task_id = ?", getTaskCollectionPositionPrefix(m.rootPath))
 	var sqlArgs []any = []any{taskID}
 	if metaObj.CollectionID != 0 {
 		sqlStr += " AND collection_id = ?"
